@@ -110,7 +110,7 @@ fn op() -> impl Strategy<Value = COp> {
 }
 
 pub fn strategy() -> impl Strategy<Value = CCase> {
-    (prop_oneof![1 => Just(0u8), 2 => Just(1u8), 2 => Just(2u8)], prop::bool::weighted(0.3), prop::collection::vec((any::<bool>(), op()), 1..25), 2u8..=4)
+    (prop_oneof![1 => Just(0u8), 2 => Just(1u8), 2 => Just(2u8)], prop::bool::weighted(0.3), prop::collection::vec((any::<bool>(), op()), 1..25), prop_oneof![3 => 2u8..=4, 1 => Just(255u8)])
         .prop_map(|(strategy, active_redirection, ops, max_redirections)| CCase { strategy, active_redirection, ops, max_redirections })
 }
 
@@ -167,7 +167,7 @@ async fn run(case: &CCase, obs: &mut Obs) -> Result<(), Fail> {
     set_cluster(&world, PB, (RB, split + 1, 16383), (PA, 0, split), &cfg).await?;
     obs.class(format!("strategy:{}", ["disabled", "set_get_only", "allow_all"][case.strategy as usize]));
     if case.active_redirection {
-        obs.class(format!("active-redirection:max_redirections={}", if case.max_redirections == 0 { 4 } else { case.max_redirections }));
+        obs.class(format!("active-redirection:max_redirections={}", if case.max_redirections == 0 { "4".to_string() } else if case.max_redirections == 255 { "unlimited".to_string() } else { case.max_redirections.to_string() }));
     }
     let enabled = case.strategy != 0;
 
